@@ -287,6 +287,22 @@ func check(t vkit.TB, c *hdrCase) (classes []string, nontrivial bool) {
 	if dropped := fresh.Merge(h); dropped != 0 || !fresh.Equals(h) {
 		fail("merge", "Merge into an empty histogram of the same shape: dropped=%d Equal=%v TotalCount=%d (want %d)", dropped, fresh.Equals(h), fresh.TotalCount(), total)
 	}
+	// ... and an Equal histogram answers like the original: the copies
+	// bracket the data exactly as the original does
+	key = "copy-queries-panic"
+	for _, cp := range []struct {
+		name string
+		h    *hdrhist.Histogram
+	}{{"Import(Export())", imp}, {"Merge into an empty histogram", fresh}} {
+		if cp.h.Min() != h.Min() || cp.h.Max() != h.Max() {
+			fail("copy-differs", "%s: Min/Max = %d/%d, the original answers %d/%d (recorded %d..%d)", cp.name, cp.h.Min(), cp.h.Max(), h.Min(), h.Max(), lo, hi)
+		}
+		for _, q := range []float64{0.001, 25, 50, 90, 99.9, 100} {
+			if a, b := cp.h.ValueAtQuantile(q), h.ValueAtQuantile(q); a != b {
+				fail("copy-differs", "%s: ValueAtQuantile(%v) = %d, the original answers %d", cp.name, q, a, b)
+			}
+		}
+	}
 	key = "stats-panic"
 	// Mean/StdDev accumulate in int64 and may overflow for huge values;
 	// the statement only asks that they do not panic.
